@@ -393,7 +393,7 @@ def run(ctx):
             for lo in range(0, 1 << ndirected, step):
                 tasks.append((shape, lo, min(lo + step, 1 << ndirected), variants))
     # names: custom backbone / site names and (thorough) a molecule name that is a prefix of a bead type
-    name_sets = [('molecule', 'VS'), ('prot_A', 'CA')] + ([('P', 'CA'), ('S', 'CA')] if not ctx.quick else [])
+    name_sets = [('molecule', 'VS'), ('prot_A', 'CA'), ('P', 'CA')] + ([('S', 'CA'), ('SC', 'CA')] if not ctx.quick else [])
     for names in name_sets:
         for bbname in ('BB', 'B1'):
             shape = ((3,), True, False, False, bbname)
